@@ -6,6 +6,7 @@ from . import PropSpec
 
 class C04Quotient(QuotientWorld):
     prop = "C04"
+    hang_is_violation = True
 
     def observe(self, step):
         if not self.claim_open:
